@@ -1,11 +1,11 @@
 \* reference configuration (tools/props/C05.py generates its configurations from this shape)
-CONSTANTS NThr = 2  MaxEnt = 3  MaxRemote = 1  MaxDepth = 2  MaxOps = 5
+CONSTANTS NThr = 2  MaxEnt = 3  MaxRemote = 1  MaxDepth = 1  MaxOps = 6
           Samplers = {"on", "off", "pb_on", "c_RO_2"}
           RemFlags = {0, 1, 255}  RemForms = {"valid", "zero"}
           Dev = {}  Hist = FALSE
 INIT Init
 NEXT Next
 VIEW ViewState
-INVARIANTS TypeOK SameTraceAsParent RootHasNoParent FreshSpanId Precedence FlagsLevel1Only
-           SampledIsDecision TraceStateRule DroppedNeverExported OnlyListedDeviations
-PROPERTY ThreadsIsolated
+INVARIANTS TypeOK SameTraceAsParent RootHasNoParent FreshSpanId FlagsLevel1Only SampledIsDecision
+           DroppedNeverExported OnlyListedDeviations
+PROPERTIES ThreadsIsolated StartRules
